@@ -65,3 +65,49 @@ func VerifLemma_C02D_Parallelize() {
 		verifAssert(errors.Is(err, vErrJob), "a job's error is in the returned chain")
 	}
 }
+
+// VerifLemma_C02D_ParallelizeExternalCancel: the caller's context is cancelled while Parallelize is running
+// (here: by one of the jobs, which itself succeeds). Whatever the completion order and options, Parallelize must
+// not report success unless every job ran: a job that was never started because of the cancellation has to
+// surface as a non-nil error (ctx.Err()).
+func VerifLemma_C02D_ParallelizeExternalCancel() {
+	n := verifNondetChoice(verifParam("JOBS")-1) + 2 // 2..JOBS
+	par := verifNondetChoice(verifParam("JOBS")) + 1
+	cancelOnFailure := verifNondetBool()
+	canceller := verifNondetChoice(n)
+	SetParallelism(par)
+	parent, parentCancel := context.WithCancel(context.Background())
+	defer parentCancel()
+	ran := make([]int, n)
+	jobs := make([]func(context.Context) error, n)
+	for i := 0; i < n; i++ {
+		i := i
+		jobs[i] = func(ctx context.Context) error {
+			ran[i]++
+			if i == canceller {
+				parentCancel()
+			}
+			return nil
+		}
+	}
+	var opts []ParallelizeOption
+	if cancelOnFailure {
+		opts = append(opts, ParallelizeWithCancelOnFailure())
+	}
+	err := Parallelize(parent, jobs, opts...)
+	verifCover("returned")
+	skipped := false
+	for i := 0; i < n; i++ {
+		verifAssert(ran[i] <= 1, "a job runs at most once (external cancel)")
+		if ran[i] == 0 {
+			skipped = true
+		}
+	}
+	if skipped {
+		verifCover("a job was skipped because the caller's context was cancelled")
+		verifAssert(err != nil, "jobs skipped after an external cancellation are reported as an error")
+		verifAssert(errors.Is(err, context.Canceled), "the reported error is the context's")
+	} else {
+		verifAssert(err == nil, "all jobs ran and none failed: no error")
+	}
+}
